@@ -148,7 +148,7 @@ def _literal_seq(node):
     return None
 
 
-_CONST_CTORS = {"re.compile"}
+_CONST_CTORS = {"re.compile", "slice"}
 
 
 def _pure(e, lambdas: bool = False) -> bool:
@@ -1286,6 +1286,12 @@ class _Fold(ast.NodeTransformer):
         if not isinstance(n.ctx, ast.Load):
             return n
         v, s = n.value, n.slice
+        # x[slice(a, b)] is x[a:b]
+        if isinstance(s, ast.Call) and isinstance(s.func, ast.Name) and s.func.id == "slice" and 1 <= len(s.args) <= 3 and not s.keywords \
+                and all(isinstance(a, ast.Constant) and (a.value is None or _int(a)) for a in s.args):
+            a_ = [None if a.value is None else a for a in s.args]
+            lo, hi, st = (None, a_[0], None) if len(a_) == 1 else (a_[0], a_[1], a_[2] if len(a_) == 3 else None)
+            n.slice = s = ast.copy_location(ast.Slice(lower=lo, upper=hi, step=st), s)
         if isinstance(v, ast.Dict) and isinstance(s, ast.Constant) and _const_keys(v) is not None and all(_pure(x, lambdas=True) for x in v.values):
             hit = [val for k, val in zip(v.keys, v.values) if _same_const(k.value, s.value)]
             if hit:
